@@ -39,8 +39,8 @@ const (
 	behUnordered // intersection, ascending
 	behDuplicates
 	behEmpty
-	behZigzag   // common versions: second highest first, then descending, the highest last
-	behPermuted // common versions in a permutation chosen by the scenario's order seed
+	behZigzag          // common versions: second highest first, then descending, the highest last
+	behPermuted        // common versions in a permutation chosen by the scenario's order seed
 	behUnsupportedBare // discovery unsupported, reported as a message-level error: one failed item without Operation
 	nBehaviours
 )
@@ -72,6 +72,10 @@ type C13Sc struct {
 	// Discover: after the dial the client also sends a Discover Versions request of its own, alone and inside a
 	// batch (scripted server only): these are ordinary requests and carry the adopted version like any other
 	Discover bool `json:"discover,omitempty"`
+	// RespHdr (scripted server): the protocol version in the header of the discovery reply. 0 = the request's (the
+	// discovery request travels under a version of the client's choosing, not one the server need support) | 1 the
+	// server's highest version | 2 always 1.0 | 3 always 1.4. What is negotiated is in the payload, not here
+	RespHdr int `json:"resp_hdr,omitempty"`
 }
 
 type C13Second struct {
@@ -105,6 +109,9 @@ func genC13(g *simrt.Tape, tier string) any {
 		sc.Cluster = 1 + g.Draw(2)
 	}
 	sc.Discover = g.Draw(3) == 0
+	if !sc.Real && g.Draw(3) == 0 {
+		sc.RespHdr = 1 + g.Draw(3)
+	}
 	sc.Chunk = []int{simnet.ChunkMax, simnet.ChunkRandom, simnet.ChunkByte}[g.Draw(3)]
 	if g.Draw(3) == 0 {
 		sc.StallPM = 100
@@ -127,6 +134,8 @@ func c13Grid(tier string) []*C13Sc {
 			}
 			for o := 1; o <= 3; o++ {
 				out = append(out, &C13Sc{Client: c, Server: s, Beh: behPermuted, Order: o, Enforce: -1, FollowUp: true})
+				// the discovery reply travels under a header version of the server's choosing
+				out = append(out, &C13Sc{Client: c, Server: s, Beh: []int{behConformant, behUnsupported, behUnsupportedBare}[(c+s+o)%3], RespHdr: o, Enforce: -1, FollowUp: true})
 			}
 			out = append(out, &C13Sc{Client: c, Server: s, Real: true, Enforce: -1, FollowUp: true, Clone: true})
 		}
@@ -225,6 +234,16 @@ func execC13(x *X, scAny any) {
 			if pl, ok := req.BatchItem[0].RequestPayload.(*payloads.DiscoverVersionsRequestPayload); ok {
 				discoveries++
 				resp := &kmip.ResponseMessage{Header: kmip.ResponseHeader{ProtocolVersion: req.Header.ProtocolVersion, TimeStamp: time.Now(), BatchCount: 1}}
+				switch sc.RespHdr {
+				case 1:
+					if hv, ok := maxVersion(sset); ok {
+						resp.Header.ProtocolVersion = hv
+					}
+				case 2:
+					resp.Header.ProtocolVersion = kmip.V1_0
+				case 3:
+					resp.Header.ProtocolVersion = kmip.V1_4
+				}
 				ri := kmip.ResponseBatchItem{Operation: kmip.OperationDiscoverVersions, ResultStatus: kmip.ResultStatusSuccess}
 				offered := pl.ProtocolVersion
 				var list []kmip.ProtocolVersion
